@@ -598,54 +598,19 @@ func (w *World) argAccess(P, bn string, ar int, impl *ssa.Function) {
 			}
 			return
 		}
-		// an index used under an explicit len(args) == n / >= n guard counts with that guard
-		need := int(k) + 1
-		// arities excluded on this path by failed `len(args) == n` tests
-		remaining := map[int]bool{}
-		for _, n := range arityTests(impl) {
-			remaining[n] = true
-		}
-		for _, a := range guardAtoms(ia.Block()) {
-			if bo, ok := a.V.(*ssa.BinOp); ok {
-				if c, ok := bo.X.(*ssa.Call); ok {
-					if bi, ok := c.Call.Value.(*ssa.Builtin); ok && bi.Name() == "len" && c.Call.Args[0] == ssa.Value(args) {
-						if n, ok := constInt(bo.Y); ok && ((bo.Op == token.EQL && !a.Pol) || (bo.Op == token.NEQ && a.Pol)) {
-							delete(remaining, int(n))
-						}
-					}
-				}
-			}
-		}
-		if len(remaining) > 0 {
-			minRem := 1 << 30
-			for n := range remaining {
-				if n < minRem {
-					minRem = n
-				}
-			}
-			if minRem >= need {
-				return
-			}
-		}
-		for _, a := range guardAtoms(ia.Block()) {
-			bo, ok := a.V.(*ssa.BinOp)
+		// the argument counts that can reach this access: every guard on len(args) that dominates it, evaluated
+		// over the finite domain of counts (any mix of ==, !=, <, <=, >, >= in any nesting)
+		need := int64(k) + 1
+		lo, feasible := minFeasible(guardAtoms(ia.Block()), func(v ssa.Value) bool {
+			c, ok := stripConv(v).(*ssa.Call)
 			if !ok {
-				continue
+				return false
 			}
-			c, ok := bo.X.(*ssa.Call)
-			if !ok {
-				continue
-			}
-			if bi, ok := c.Call.Value.(*ssa.Builtin); !ok || bi.Name() != "len" || c.Call.Args[0] != ssa.Value(args) {
-				continue
-			}
-			n, ok := constInt(bo.Y)
-			if !ok {
-				continue
-			}
-			if (bo.Op == token.EQL && a.Pol && int(n) >= need) || (bo.Op == token.GEQ && a.Pol && int(n) >= need) || (bo.Op == token.GTR && a.Pol && int(n)+1 >= need) {
-				return
-			}
+			bi, ok := c.Call.Value.(*ssa.Builtin)
+			return ok && bi.Name() == "len" && c.Call.Args[0] == ssa.Value(args)
+		})
+		if !feasible || lo >= need {
+			return
 		}
 		if int(k) > maxIdx {
 			maxIdx = int(k)
